@@ -13,11 +13,13 @@ that evaluates the property itself on the real code):
   suite_manifest_api   random write/copy sequences on a real backend, real mode and manifest mode, vs Manifest.run
   suite_manifest_backends   every built-in backend x specs x option sets: manifest run vs real run (oracle only)
 """
+import contextlib
 import importlib
 import itertools
 import json
 import os
 import shutil
+import signal
 import textwrap
 import time
 
@@ -34,6 +36,26 @@ RULE = ('paths: all sequences of <= 4 segments over {a, ., .., d/e, unicode, emp
 ALPHABET = ['{', '}', '{{', '}}', '{}', '{0}', '{x}', '{x', 'x}', 'a', 'b', ' ', '\n', 'é', '日本', '%s', '{!r}', '{:>4}', '\\', '"']
 
 EMIT_ERRORS = (AssertionError, KeyError, IndexError, ValueError)
+
+
+class Hang(Exception):
+    """the real code did not return within the time limit (e.g. an endless loop introduced by an edit)"""
+
+
+@contextlib.contextmanager
+def time_limit(seconds):
+    def handler(_signum, _frame):
+        raise Hang()
+    old = signal.signal(signal.SIGALRM, handler)
+    signal.setitimer(signal.ITIMER_REAL, seconds)
+    try:
+        yield
+    finally:
+        signal.setitimer(signal.ITIMER_REAL, 0)
+        signal.signal(signal.SIGALRM, old)
+
+
+HANG = '<<did not terminate within the time limit>>'
 
 
 def unwire(x):
@@ -590,10 +612,13 @@ def reference_text(ops, tabs):
 def run_emit_real(cls, ops):
     b = cls('/nonexistent', [])
     try:
-        exec_ops(b, ops)
-        return b.output_buffer_to_string()
+        with time_limit(2.0):
+            exec_ops(b, ops)
+            return b.output_buffer_to_string()
     except EMIT_ERRORS:
         return None
+    except Hang:
+        return HANG
 
 
 def _script_nontrivial(ops):
@@ -640,11 +665,13 @@ def _variants(ops):
 def shrink_script(cls, tabs, ops, budget=400):
     """Greedy minimisation of a failing emit script (keeps failing the reference comparison)."""
     improved = True
+    t0 = time.time()
     while improved and budget > 0:
         improved = False
         for v in _variants(ops):
             budget -= 1
-            if budget <= 0:
+            if budget <= 0 or time.time() - t0 > 30:
+                budget = 0
                 break
             if _emit_mismatch(cls, tabs, v)[0]:
                 ops = v
@@ -682,6 +709,10 @@ def suite_emit(ck):
     reals = []
     for tabs, ops in scripts:
         reals.append(run_emit_real(Tabs if tabs else Spaces, ops))
+        if reals[-1] == HANG and sum(1 for r in reals if r == HANG) >= 5:
+            ck.note('be.emit stopped after 5 non-terminating scripts; %d scripts not run' % (len(scripts) - len(reals)))
+            scripts = scripts[:len(reals)]
+            break
     rep = drive(ck, [{'op': 'be.emit', 'tabs': tabs, 'script': ops} for tabs, ops in scripts])
     for (tabs, ops), real, r in zip(scripts, reals, rep):
         ck.case(('emit', tabs, json.dumps(ops)), _script_nontrivial(ops))
@@ -743,11 +774,20 @@ def suite_wrap(ck):
         b = (Tabs if c['tabs'] else Spaces)('/nonexistent', [])
         b.cur_indent = c['depth']
         try:
-            b.emit_wrapped_text(c['text'], prefix=c['prefix'], initial_prefix=c['ini'], subsequent_prefix=c['sub'],
-                                width=c['width'])
-            reals.append(b.output_buffer_to_string())
+            with time_limit(2.0):
+                b.emit_wrapped_text(c['text'], prefix=c['prefix'], initial_prefix=c['ini'], subsequent_prefix=c['sub'],
+                                    width=c['width'])
+                reals.append(b.output_buffer_to_string())
         except ValueError:
             reals.append(None)
+        except Hang:
+            reals.append(HANG)
+            if sum(1 for r in reals if r == HANG) >= 5:
+                break
+    hung = len(cases) - len(reals)
+    if hung:
+        ck.note('be.wrap stopped after 5 non-terminating calls; %d cases not run' % hung)
+        cases = cases[:len(reals)]
     rep = drive(ck, [{'op': 'be.wrap', 'text': c['text'], 'ini': c['indent'] + c['prefix'] + c['ini'],
                       'sub': c['indent'] + c['prefix'] + c['sub'], 'width': c['width']} for c in cases])
     for c, real, r in zip(cases, reals, rep):
@@ -760,7 +800,10 @@ def suite_wrap(ck):
             ck.disagree('be.wrap', c, real, model)
         else:
             ck.agree('be.wrap')
-        if real is not None:
+        if real == HANG:
+            ck.failing_input('emit_wrapped_text does not terminate', {'site': 'emit_wrapped_text', 'kind': 'hang'},
+                             dict(c, suite='wrap'))
+        elif real is not None:
             wrap_oracle(ck, c, real)
             if r.get('ok') and r.get('words') != c['text'].split():
                 ck.disagree('be.wrap.words', c, c['text'].split(), r.get('words'))
@@ -999,7 +1042,10 @@ def run_backend_once(sb_top, name, args, specs, template, manifest, via_cli_help
         mod = importlib.import_module('stone.backends.' + name)
         c = Compiler(api, mod, list(args), 'out', output_manifest=manifest)
         try:
-            c.build()
+            with time_limit(60.0):
+                c.build()
+        except Hang:
+            status, detail = 'hang', 'Hang: no result within 60 s'
         except BackendException as e:
             last = e.traceback.strip().splitlines()[-1]
             status = 'refused' if 'attempted to write outside its output root' in last else 'backend-exception'
@@ -1092,10 +1138,10 @@ def suite_manifest_backends(ck):
                 ck.note('manifest run of %s creates directories (no files): %s' % (name, man['new_dirs']))
             if expect_refused and real['status'] != 'refused':
                 ck.note('expected a refusal for %s %s on %s, got %s' % (name, args, sname, real['status']))
-            if backend_oracle(ck, case, real, man):
-                ck.agree('be.manifest_backends')
-            else:
-                ck.disagree('be.manifest_backends', case, real, man)
+            # no model on this side: the oracle alone judges (a failing input is a violation or a known finding)
+            okay = backend_oracle(ck, case, real, man)
+            ck.agree('be.manifest_backends')
+            ck.hist('be.manifest_backends.oracle', 'holds' if okay else 'fails')
             if name == 'python_types' and sname == 'basic' and len(args) == 2:
                 ck.sample({'backend': name, 'spec': sname, 'manifest': man['manifest'], 'created': real['created']})
     ck.stat('be.manifest_backends.backends', len(seen_backends))
@@ -1108,10 +1154,38 @@ def replay(ck, path):
     """Re-evaluate the oracle of one recorded failing input on the tree under test."""
     rec = json.load(open(path))
     print(json.dumps(rec, indent=1, ensure_ascii=False)[:3000])
+    if rec.get('no_failing_input_found'):
+        print('(this record names broken proof obligations / correspondence suites, not a failing input; '
+              're-run ./check C18 to re-evaluate them)')
+        return 0
+    before = len(ck.violations)
+    known_before = len(ck.known_hits)
+    if not replay_case(ck, rec):
+        print('(no re-evaluation for this kind of record; the failing input is shown above)')
+        return 0
+    failed = len(ck.violations) > before or len(ck.known_hits) > known_before
+    print('replay: the recorded input %s on %s' % ('STILL FAILS' if failed else 'no longer fails', core.REPO))
+    return 1 if failed else 0
+
+
+def run_corpus(ck):
+    """corpus/C18/*.json (replay-file format): minimised past failures and hand seeds, evaluated first."""
+    d = os.path.join(core.VERIF, 'corpus', ck.prop)
+    if not os.path.isdir(d):
+        return
+    for fn in sorted(os.listdir(d)):
+        if fn.endswith('.json'):
+            rec = json.load(open(os.path.join(d, fn)))
+            if replay_case(ck, rec):
+                ck.case(('corpus', fn), True)
+                ck.stat('corpus.cases')
+
+
+def replay_case(ck, rec):
+    """Evaluate the direct oracle on one recorded case; False if the record has no re-evaluable case."""
     case = rec.get('case') or {}
     suite = case.get('suite')
     Spaces, Tabs, Swift = _backend_classes()
-    before = len(ck.violations)
     if suite == 'format':
         b = Spaces('/nonexistent', [])
         b.emit_raw(case['text'] + '\n')
@@ -1123,10 +1197,14 @@ def replay(ck, path):
     elif suite == 'wrap':
         b = (Tabs if case['tabs'] else Spaces)('/nonexistent', [])
         b.cur_indent = case['depth']
-        b.emit_wrapped_text(case['text'], prefix=case['prefix'], initial_prefix=case['ini'], subsequent_prefix=case['sub'],
-                            width=case['width'])
-        wrap_oracle(ck, {k: case[k] for k in ('text', 'tabs', 'depth', 'indent', 'prefix', 'ini', 'sub', 'width')},
-                    b.output_buffer_to_string())
+        try:
+            with time_limit(2.0):
+                b.emit_wrapped_text(case['text'], prefix=case['prefix'], initial_prefix=case['ini'],
+                                    subsequent_prefix=case['sub'], width=case['width'])
+            wrap_oracle(ck, {k: case[k] for k in ('text', 'tabs', 'depth', 'indent', 'prefix', 'ini', 'sub', 'width')},
+                        b.output_buffer_to_string())
+        except Hang:
+            ck.failing_input('emit_wrapped_text does not terminate', {'site': 'emit_wrapped_text', 'kind': 'hang'}, case)
     elif suite == 'path' and case.get('writer') in ('output_to_relative_path', 'swift_writer', 'copy_to_path'):
         sb = Sandbox()
         home = os.getcwd()
@@ -1162,8 +1240,5 @@ def replay(ck, path):
         man = run_backend_once(top, case['backend'], case['args'], spec, template, True)
         backend_oracle(ck, {k: case[k] for k in ('suite', 'backend', 'args', 'spec')}, real, man)
     else:
-        print('(no re-evaluation for this kind of record; the failing input is shown above)')
-        return 0
-    failed = len(ck.violations) > before or bool(ck.known_hits)
-    print('replay: the recorded input %s on %s' % ('STILL FAILS' if failed else 'no longer fails', core.REPO))
-    return 1 if failed else 0
+        return False
+    return True
